@@ -381,6 +381,26 @@ class Ops(SeriesOps):
         self.log("frame-op", node, op=what, src=f.obj, dst=g.obj, base=f.base, ctx=g.ctx())
         return g
 
+    def f_add_suffix(self, f, pos, kw, node):
+        return self._affix(f, pos, kw, node, suffix=True)
+
+    def f_add_prefix(self, f, pos, kw, node):
+        return self._affix(f, pos, kw, node, suffix=False)
+
+    def _affix(self, f, pos, kw, node, suffix: bool):
+        a = pos[0] if pos else kw.get("suffix" if suffix else "prefix")
+        cn = f.colnames()
+        if not isinstance(a, str) or cn is None:
+            return Frame(("opaque-affix", self.I.new_id()))
+        g = f.derive(known=[])
+        g.cols, g.dropped = {}, set()
+        snap = f.derive()
+        for c in cn:
+            g.setcol(c + a if suffix else a + c, snap.col(c))
+        g.resolver = None
+        self.log("rename", node, src=f.obj, dst=g.obj, mapping={c: (c + a if suffix else a + c) for c in cn})
+        return g
+
     def f_astype(self, f, pos, kw, node):
         ty = to_term(pos[0] if pos else kw.get("dtype"))
         return self._wrap_all(f, lambda t: ("astype", ty, t), node, "astype")
@@ -657,6 +677,15 @@ class Ops(SeriesOps):
 
     def concat(self, frames: List[Any], kw, node) -> Any:
         axis = kw.get("axis", 0)
+        if axis in (1, "columns") and all(isinstance(fr, Frame) for fr in frames) and "keys" not in kw and len(frames) >= 1 \
+                and len({(fr.base, fr.rows, fr.order, repr(fr.index)) for fr in frames}) == 1 and all(fr.colnames() is not None for fr in frames):
+            # column-wise concat of frames over the SAME rows and index: the union of their columns, left to right
+            g = frames[0].derive()
+            for fr in frames[1:]:
+                for c in fr.colnames():
+                    g.setcol(c, fr.col(c))
+            self.log("concat-columns-same-rows", node, srcs=[fr.obj for fr in frames], dst=g.obj)
+            return g
         if axis in (1, "columns") and all(isinstance(fr, Frame) for fr in frames):
             return self.concat_columns(frames, kw, node)
         parts = []
